@@ -290,11 +290,12 @@ def _jobs(tier, counting):
             js.append({"h": pre + "lookup", "cfg": c, "opts": {"index_concretize_limit": 8, "witnesses": 1}})
             for v in range(max(full, 1)):
                 js.append({"h": pre + "remove", "cfg": dict(c, victim=v), "opts": {"index_concretize_limit": 8, "witnesses": 1}})
-            js.append({"h": pre + "expand", "cfg": c, "opts": {"cost": cost, "index_concretize_limit": 8, "witnesses": 1}})
+            if c["cap"] * c["bsz"] < 6 or full < 5:
+                js.append({"h": pre + "expand", "cfg": c, "opts": {"cost": cost, "index_concretize_limit": 8, "witnesses": 1, "max_seconds": 1500}})
     for cap, bsz, n in [(1, 1, 2), (2, 1, 3), (2, 2, 3)]:
         for auto in (False, True):
-            if auto and n == 3 and (tier == "quick" or bsz == 2):
-                n = 2
+            if auto and n == 3:
+                n = 2          # three adds with auto-expansion from the fresh table: > 15 000 paths, not finished in 10 min
             js.append({"h": pre + "history", "cfg": {"cap": cap, "bsz": bsz, "swaps": 2, "auto": auto, "n": n, "counting": counting},
                        "opts": {"cost": 50, "index_concretize_limit": 8, "witnesses": 1}})
     return js
